@@ -15,7 +15,11 @@ pub struct Shape {
     /// recursive calls written `f!(a, b,)`
     pub trailing: bool,
     /// body template: 'A' two recursive calls, order chosen by a branch on the first argument;
-    /// 'B' three recursive calls with early returns; 'C' nested call, calls in a loop and in a match arm
+    /// 'B' three recursive calls with early returns; 'C' nested call, calls in a loop and in a match arm;
+    /// 'D' argument expressions with effects: a recursive call nested in an argument of a recursive call
+    /// (also as a statement of a block argument when there is no return value), arguments that are blocks
+    /// mutating every mutable capture before yielding their value, and an argument computed from a value
+    /// popped off a mutable Vec capture
     pub body: char,
 }
 
@@ -77,16 +81,17 @@ impl Shape {
     }
 }
 
-/// Simplest first: body template, then number of captures, capture pattern (`&` before `&mut`, leftmost
-/// position most significant), number of arguments, return type absent before present, plain call before
-/// trailing comma.
-pub fn enumerate(bodies: &[char]) -> Vec<Shape> {
+/// `plan` = (body template, argument counts it is emitted with).  Simplest first: body template, then
+/// number of captures, capture pattern (`&` before `&mut`, leftmost position most significant), number of
+/// arguments, return type absent before present, plain call before trailing comma.
+pub fn enumerate(plan: &[(char, Vec<usize>)]) -> Vec<Shape> {
     let mut v = vec![];
-    for &body in bodies {
+    for (body, arities) in plan {
+        let body = *body;
         for ncaps in 0..=4usize {
             for pat in 0..(1u32 << ncaps) {
                 let caps: Vec<bool> = (0..ncaps).map(|i| (pat >> (ncaps - 1 - i)) & 1 == 1).collect();
-                for nargs in 1..=4usize {
+                for &nargs in arities {
                     for ret in [false, true] {
                         for trailing in [false, true] {
                             v.push(Shape { caps: caps.clone(), nargs, ret, trailing, body });
@@ -175,6 +180,19 @@ impl<'a> BodyGen<'a> {
             }
         }
         s
+    }
+    /// The argument expression `{ <mutate every mutable capture with e>; value }`.
+    fn effect_arg(&self, e: &str, value: &str, ind: &str) -> String {
+        let inner = format!("{ind}    ");
+        format!("{{\n{}{inner}{value}\n{ind}}}", self.mutate(e, &inner))
+    }
+    /// 0 or 1, popped off the first mutable Vec capture when there is one (the first mutable capture of a
+    /// shape always is a Vec), else computed from the arguments.
+    fn popped_bit(&self) -> String {
+        match (0..self.sh.caps.len()).find(|&p| self.sh.caps[p] && self.sh.cap_is_vec(p)) {
+            Some(p) => format!("{}.pop().unwrap_or(3).rem_euclid(2)", self.sh.cap_name(p)),
+            None => "key.rem_euclid(2)".to_string(),
+        }
     }
     /// key from all arguments, acc from key and every shared capture.
     fn prologue(&self, ind: &str) -> String {
@@ -290,6 +308,44 @@ impl<'a> BodyGen<'a> {
                     s += &format!("{i2}}}\n{i2}_ => {{}}\n{i1}}}\n");
                 }
             }
+            'D' => {
+                let n = self.sh.nargs;
+                s += &self.mutate("acc", &i1);
+                s += &format!("{i1}if a1 <= 0 {{\n{i2}{}\n{i1}}}\n", self.ret("acc"));
+                // inner call: its first argument is a block that mutates the mutable captures
+                let mut inner = site(1, n);
+                inner[0] = self.effect_arg("key ^ 1", "a1 - 2", &i2);
+                let inner = self.call_with(inner);
+                // outer call: the inner call is (part of) its first argument; its last argument is a block
+                // that mutates the mutable captures (the same argument when there is only one)
+                let mut outer = site(2, n);
+                let first = if r {
+                    format!("{inner}.rem_euclid(2) + a1 - 3")
+                } else {
+                    format!("{{\n{i2}    {inner};\n{}{i2}    a1 - 2\n{i2}}}", self.mutate("key ^ 4", &format!("{i2}    ")))
+                };
+                if n == 1 {
+                    outer[0] = self.effect_arg("key ^ 2", &first, &i2);
+                } else {
+                    outer[0] = first;
+                    outer[n - 1] = self.effect_arg("key ^ 2", &outer[n - 1].clone(), &i2);
+                }
+                // a call whose first argument depends on a value popped off a mutable capture
+                let mut popping = site(3, n);
+                popping[0] = format!("a1 - 1 - {}", self.popped_bit());
+                if r {
+                    s += &format!("{i1}let x = {};\n", self.call_with(outer));
+                    s += &self.mutate("x", &i1);
+                    s += &format!("{i1}let y = {};\n", self.call_with(popping));
+                    s += &self.mutate("x ^ y", &i1);
+                    s += &format!("{i1}x.wrapping_mul(3).wrapping_add(y).wrapping_add(acc)\n");
+                } else {
+                    s += &format!("{i1}{};\n", self.call_with(outer));
+                    s += &self.mutate("key ^ 3", &i1);
+                    s += &format!("{i1}{};\n", self.call_with(popping));
+                    s += &self.mutate("key ^ 5", &i1);
+                }
+            }
             other => panic!("unknown body template {other}"),
         }
         s
@@ -307,6 +363,45 @@ pub fn macro_invocation(sh: &Shape, ind: &str) -> String {
     s += &BodyGen { sh, hand: None }.body(&i1);
     s += &format!("{i1}}}\n{ind}}})");
     s
+}
+
+/// The argument lists (text between the parentheses) of every `f!(…)` in a macro invocation, nested ones
+/// included.  Used for the non-vacuity facts "a recursive call occurs inside an argument of a recursive
+/// call" and "an argument expression mutates a mutable capture".
+pub fn call_argument_lists(invocation: &str) -> Vec<&str> {
+    let b = invocation.as_bytes();
+    let mut out = vec![];
+    let mut from = 0;
+    while let Some(k) = invocation[from..].find("f!(") {
+        let open = from + k + 2;
+        let mut depth = 0usize;
+        let mut end = b.len();
+        for (i, &c) in b.iter().enumerate().skip(open) {
+            match c {
+                b'(' | b'{' | b'[' => depth += 1,
+                b')' | b'}' | b']' => {
+                    depth -= 1;
+                    if depth == 0 {
+                        end = i;
+                        break;
+                    }
+                }
+                _ => {}
+            }
+        }
+        out.push(&invocation[open + 1..end]);
+        from = open + 1;
+    }
+    out
+}
+pub fn has_nested_call_argument(invocation: &str) -> bool {
+    call_argument_lists(invocation).iter().any(|a| a.contains("f!("))
+}
+/// `mutate` writes `name.push(` / `*name = `; `popped_bit` writes `name.pop()`; mutable captures are named m<p>
+pub fn has_mutating_argument(invocation: &str) -> bool {
+    call_argument_lists(invocation).iter().any(|a| {
+        (0..4).any(|p| a.contains(&format!("m{p}.push(")) || a.contains(&format!("m{p}.pop()")) || a.contains(&format!("*m{p} = ")))
+    })
 }
 
 /// The equivalent hand-written recursive function: arguments, then the captures in written order.
